@@ -290,6 +290,12 @@ func ZZ_C12_Threads() {
 	e.Registry = newRegistry(e)
 	e.eventStream = e.Spawn(newEventStream(), "eventstream", WithInboxSize(2))
 	zzrt.Quiesce()
+	// a subscriber on another node: what the event stream hands to the engine's remote for it, in that order
+	rem := &ZZRecRemote{Addr: e.address}
+	e.remote = rem
+	far := NewPID("elsewhere:1", "sub"+pidSeparator+"far")
+	e.Subscribe(far)
+	zzrt.Quiesce()
 	subs := make([]*ZZRecProc, G)
 	for i := range subs {
 		subs[i] = &ZZRecProc{Pid: NewPID(e.address, "sub"+pidSeparator+string(rune('0'+i)))}
@@ -306,6 +312,25 @@ func ZZ_C12_Threads() {
 		})
 	}
 	zzrt.Quiesce()
+	{
+		// the remote subscriber: every broadcast exactly once, each goroutine's events in its broadcast order
+		last := make([]int, G)
+		n := 0
+		for _, got := range rem.Sent {
+			ev, ok := got.Msg.(zzEvt)
+			if !ok {
+				continue
+			}
+			zzrt.Assert(got.To == far, "C12:event-for-remote-subscriber-addressed-elsewhere")
+			from, k := ev.N/10, ev.N%10
+			if from < 0 || from >= G || k <= last[from] {
+				zzrt.Fail("C12:remote-subscriber-gets-events-twice-or-out-of-order")
+			}
+			last[from] = k
+			n++
+		}
+		zzrt.Assert(n == 3*G, "C12:remote-subscriber-misses-events")
+	}
 	for g := 0; g < G; g++ {
 		last := make([]int, G)
 		for _, got := range subs[g].Got {
